@@ -9,6 +9,7 @@
 //@ include contracts/headers.rs as callee
 //@ include contracts/creq.rs as callee
 //@ include contracts/time.rs as callee
+//@ include contracts/trim.rs as callee
 //@ include contracts/requirements.rs
 //@ include contracts/params.rs
 //@ include prelude/tail.rs
